@@ -37,15 +37,43 @@ def task_credit_in_the_scheduler(ctx):
     return len(L.parse_cases(impl))
 
 
+def worker_total_across_connections(ctx):
+    """'exactly once to the worker-name total': the record kept per worker name outlives a connection — a rig that reconnects, a
+    second rig under the same name, another miner serving the same contract all add to one total.  The real GlobalHashrate
+    (OnConnect / OnSubmit / Initialize / Reset, several connections under one name) against Model/WorkerBook.lean, op by op;
+    Props.C04.worker_total_history is the statement for every history of connections and shares"""
+    exe = L.build_harness(ctx, "hashrate")
+    if not exe:
+        return 0
+    rc, out = L.run_harness(ctx, exe, "TestVerifBook$", env={"VERIF_N": 300 if ctx.tier == "quick" else 6000}, timeout=600)
+    if rc != 0:
+        ctx.tie_failures.append("worker-record harness run failed (rc=%d): %s" % (rc, out[-300:]))
+        return 0
+    impl = ctx.out + "/book.impl.txt"
+    rc, err = L.drv("model", "book", impl, impl + ".model.txt")
+    if rc != 0:
+        ctx.tie_failures.append("driver model book failed: " + err[-200:])
+        return 0
+    for d in L.diff_cases(impl, impl + ".model.txt")[:1]:
+        L.violation(ctx, "c04:worker-total-across-connections", "after %s the worker-name record reads %r, the model %r (per worker name: last share second, total work): a credited share is no longer in the worker-name total, or is in it more than once" % (
+            L.last_op_before(d["lines"], d["first"])[2:], d["impl"][:120], d["other"][:120]),
+            {"clause": "every accepted share adds its difficulty exactly once to the worker-name total", "case": d["header"],
+             "ops": [l for l in d["lines"][:d["first"] + 1] if l.startswith("> ")], "how_to_replay": "bin/check C04 --replay <this file>"})
+    return sum(1 for h, ls in L.parse_cases(impl) for l in ls if l.startswith("> "))
+
+
 def run(ctx):
     cases = S.run_session_check(ctx, "C04")
     ctx.coverage["scheduler_histories"] = task_credit_in_the_scheduler(ctx)
     ctx.coverage["submits_after_reconnects_compared"] = S.after_reconnect(ctx, "C04")
+    ctx.coverage["worker_record_ops_compared"] = worker_total_across_connections(ctx)
     S.session_coverage(ctx, cases, nontrivial, S.GEN_RULE + " Non-trivial: a session in which a task callback fired and a share was accepted; distinct by op list")
 
 
 def replay(ctx, path):
     import json
+    if "worker-total" in json.load(open(path)).get("signature", ""):
+        return L.generic_replay(ctx, path, "hashrate", "TestVerifBook$", "book", "book.impl.txt", mode="model")
     if "scheduler" in json.load(open(path)).get("signature", ""):
         import importlib.util
         spec = importlib.util.spec_from_file_location("chk_C07", "%s/checks/C07.py" % L.VERIF)
